@@ -136,3 +136,596 @@ Proof.
   induction l as [|f tl IH]; [discriminate|]. rewrite has_ex_cons, ncounted_cons, orb_true_iff.
   intros [H|H]; [destruct f; try discriminate; cbn; lia | specialize (IH H); lia].
 Qed.
+
+(* ------------------------------------------------------------------ the safety invariant *)
+Record Inv (s : state) : Prop := {
+  i_cnt : forall t, cnt s t = ncounted (stk s t);
+  i_own : forall t, owner s = Some t <-> has_ex (stk s t) = true;
+  i_ex : forall t u, has_ex (stk s t) = true -> u <> t -> cnt s u = 0;
+  i_wf : forall t, wf_stack (stk s t);
+}.
+
+Lemma inv_init : Inv init.
+Proof.
+  constructor; intros; rewrite ?stk_init, ?cnt_init in *; cbn in *; try split; try discriminate; auto.
+Qed.
+
+(* case analysis of one step: all the leaves with s' explicit *)
+Ltac break_step H :=
+  match type of H with
+  | context[match ?x with _ => _ end] =>
+      let E := fresh "E" in destruct x eqn:E; try discriminate H; break_step H
+  | context[if ?x then _ else _] =>
+      let E := fresh "E" in destruct x eqn:E; try discriminate H; break_step H
+  | _ => idtac
+  end.
+
+
+Lemma wf_of_bodies l : forallb is_body l = true -> wf_stack l.
+Proof. destruct l as [|f tl]; cbn; auto. rewrite andb_true_iff. tauto. Qed.
+
+Lemma req_not_ex f : is_req f = true -> is_exbody f = false /\ counted f = false.
+Proof. destruct f; cbn; auto; discriminate. Qed.
+
+Ltac use_own :=
+  repeat match goal with
+  | Io : forall t, owner ?s = Some t <-> has_ex (stk ?s t) = true, H : has_ex (stk ?s ?t0) = true |- _ =>
+      lazymatch goal with
+      | _ : owner s = Some t0 |- _ => fail
+      | _ => assert (owner s = Some t0) by (apply Io; exact H)
+      end
+  end.
+
+Ltac brk :=
+  repeat match goal with
+    | H : _ \/ _ |- _ => destruct H
+    | H : exists _, _ |- _ => destruct H
+    | H : _ /\ _ |- _ => destruct H
+  end.
+
+Lemma can_push_bodies l : can_push l = true -> wf_stack l -> forallb is_body l = true.
+Proof. destruct l as [|f tl]; cbn; auto. intros -> ->. reflexivity. Qed.
+
+Ltac fin0 := solve [auto | lia | congruence | exfalso; lia | exfalso; congruence
+                    | apply wf_notify; auto | apply wf_of_bodies; auto | apply wf_notify, wf_of_bodies; auto
+                    | apply can_push_bodies; auto | intuition congruence ].
+
+Ltac case_ex := repeat match goal with
+  | |- context[if has_ex ?l then _ else _] => destruct (has_ex l) eqn:?
+  | H : context[if has_ex ?l then _ else _] |- _ => destruct (has_ex l) eqn:?
+  end.
+
+Ltac use_ixt := repeat match goal with
+  | Ixt : forall u, has_ex ?l = true -> u <> ?t -> cnt ?s u = 0, H : has_ex ?l = true, H1 : ?x <> ?t |- _ =>
+      lazymatch goal with _ : cnt s x = 0 |- _ => fail | _ => pose proof (Ixt x H H1) end
+  end.
+
+Ltac fin :=
+  try fin0;
+  try (split; intros);
+  use_own; brk; case_ex; use_ixt;
+  try fin0;
+  try solve [ match goal with Ix : forall t u, has_ex (stk ?s t) = true -> u <> t -> cnt ?s u = 0 |- cnt ?s ?u = 0 =>
+                eapply Ix; eauto end ].
+
+Lemma step_inv s l s' : Inv s -> step s l = Some s' -> Inv s'.
+Proof.
+  intros I H. destruct l as [t a]. unfold step, stepo, ex_check in H.
+  break_step H.
+  all: cbn in H; injection H as <-.
+  all: pose proof (i_cnt _ I) as Ic; pose proof (i_own _ I) as Io; pose proof (i_ex _ I) as Ix; pose proof (i_wf _ I) as Iw.
+  all: pose proof (Ic t) as Ict; pose proof (Io t) as Iot; pose proof (Iw t) as Iwt; pose proof (Ix t) as Ixt.
+  all: try match goal with E : stk _ _ = _ :: _ |- _ => rewrite E in Ict, Iot, Iwt, Ixt end.
+  all: rewrite ?ncounted_cons, ?has_ex_cons in Ict, Iot, Ixt; cbn [counted is_exbody orb wf_stack] in Ict, Iot, Iwt, Ixt.
+  all: repeat match goal with
+       | H : free_for _ _ = true |- _ => apply free_for_spec in H
+       | H : others_hold _ _ = false |- _ => rewrite others_hold_false in H
+       | H : others_hold _ _ = true |- _ => rewrite others_hold_spec in H
+       | H : _ && _ = true |- _ => apply andb_true_iff in H; destruct H
+       | H : is_req _ = true |- _ => apply req_not_ex in H; destruct H
+       end.
+  all: constructor.
+  all: intros; autorewrite with st in *.
+  all: repeat match goal with
+  | |- context[Nat.eqb ?u ?t] => destruct (Nat.eqb_spec u t); subst
+  | H : context[Nat.eqb ?u ?t] |- _ => destruct (Nat.eqb_spec u t); subst
+  end.
+  all: rewrite ?ncounted_notify, ?has_ex_notify in *.
+  all: rewrite ?ncounted_cons, ?has_ex_cons in *; cbn [counted is_exbody orb wf_stack] in *.
+  all: repeat match goal with H : is_exbody ?f = false |- _ => rewrite H in * end.
+  all: repeat match goal with H : counted ?f = false |- _ => rewrite H in * end.
+  all: cbn [orb] in *.
+  all: fin.
+Qed.
+
+(* ------------------------------------------------------------------ consequences for reachable states *)
+Lemma reachable_inv s : reachable s -> Inv s.
+Proof. induction 1; [apply inv_init | eapply step_inv; eauto]. Qed.
+
+Lemma reachable_g_reachable s : reachable_g s -> reachable s.
+Proof. induction 1; [constructor | econstructor; eauto]. Qed.
+
+Lemma has_ex_In l : has_ex l = true <-> In ExBody l.
+Proof.
+  unfold has_ex. rewrite existsb_exists. split.
+  - intros [f [Hf E]]. destruct f; try discriminate. exact Hf.
+  - intros H. exists ExBody. split; auto.
+Qed.
+
+Lemma ncounted_zero l : ncounted l = 0 -> forall f, In f l -> counted f = false.
+Proof.
+  induction l as [|g tl IH]; [contradiction|]. rewrite ncounted_cons. intros H f [->|Hf].
+  - destruct (counted f); [discriminate|reflexivity].
+  - apply IH; [destruct (counted g); [discriminate|exact H] | exact Hf].
+Qed.
+
+(* ---- safety *)
+Lemma excl_excludes_lemma s t u :
+  reachable s -> In ExBody (stk s t) -> u <> t -> forall f, In f (stk s u) -> counted f = false.
+Proof.
+  intros R Ht Hu. apply reachable_inv in R. apply ncounted_zero. rewrite <- (i_cnt _ R).
+  apply (i_ex _ R t u); [apply has_ex_In; exact Ht | exact Hu].
+Qed.
+
+Lemma excl_owner_lemma s t : reachable s -> (In ExBody (stk s t) <-> owner s = Some t).
+Proof. intros R. apply reachable_inv in R. rewrite <- has_ex_In. symmetry. apply (i_own _ R). Qed.
+
+Lemma count_lemma s t : reachable s -> cnt s t = ncounted (stk s t).
+Proof. intros R. apply reachable_inv in R. apply (i_cnt _ R). Qed.
+
+Lemma free_for_no_other_ex s t :
+  Inv s -> (forall u, u <> t -> ~ In ExBody (stk s u)) -> free_for s t = true.
+Proof.
+  intros I H. apply free_for_spec. destruct (owner s) as [o|] eqn:E; [|auto]. right.
+  destruct (Nat.eq_dec o t) as [->|N]; [reflexivity|]. exfalso. apply (H o N). apply has_ex_In. now apply (i_own _ I).
+Qed.
+
+Lemma shared_compatible_lemma s t b r rest :
+  reachable s -> stk s t = ShReq b r :: rest ->
+  (forall u, u <> t -> ~ In ExBody (stk s u)) ->
+  (r = true \/ cnt s t = 0) ->
+  stepo s (t, AGo) = Some (set_cnt (set_stk s t (ShBody :: rest)) t (S (cnt s t)), OEnterSh).
+Proof.
+  intros R E H C. apply reachable_inv in R. cbn. rewrite E, (free_for_no_other_ex _ _ R H).
+  destruct C as [-> | ->]; [reflexivity | cbn; rewrite andb_false_r; reflexivity].
+Qed.
+
+Lemma quiescent_empty_lemma s :
+  reachable s -> (forall t, stk s t = []) -> (forall t, cnt s t = 0) /\ owner s = None /\ acq_empty s = true.
+Proof.
+  intros R H. apply reachable_inv in R.
+  assert (C : forall t, cnt s t = 0) by (intros t; rewrite (i_cnt _ R), H; reflexivity).
+  split; [exact C|]. split; [|apply acq_empty_spec; exact C].
+  destruct (owner s) as [o|] eqn:E; [|reflexivity]. apply (i_own _ R) in E. rewrite H in E. discriminate.
+Qed.
+
+(* ---- frame: a step of t changes nothing of another thread u, except that a notify_all marks waiters *)
+Lemma filter_counted_notify l : filter counted (notify_stack l) = filter counted l.
+Proof. destruct l as [|[] tl]; reflexivity. Qed.
+
+Lemma step_other s t a s' :
+  step s (t, a) = Some s' ->
+  (forall u, u <> t -> cnt s' u = cnt s u) /\
+  ((forall u, u <> t -> stk s' u = stk s u) \/
+   ((forall u, u <> t -> stk s' u = notify_stack (stk s u)) /\ (forall v, cnt s' v = 0))).
+Proof.
+  intros H. unfold step, stepo, ex_check in H. break_step H.
+  all: cbn in H; injection H as <-.
+  all: split; [intros u Hu; autorewrite with st; apply Nat.eqb_neq in Hu; rewrite ?Hu; reflexivity|].
+  all: try (left; intros u Hu; autorewrite with st; apply Nat.eqb_neq in Hu; rewrite ?Hu; reflexivity).
+  right. apply andb_true_iff in E3. destruct E3 as [_ E3]. rewrite acq_empty_spec in E3. split.
+  - intros u Hu. autorewrite with st. apply Nat.eqb_neq in Hu. rewrite Hu. reflexivity.
+  - intros v. rewrite cnt_notify_all. apply E3.
+Qed.
+
+Lemma no_spurious_release_lemma s t a s' u :
+  step s (t, a) = Some s' -> u <> t ->
+  cnt s' u = cnt s u /\ filter counted (stk s' u) = filter counted (stk s u) /\
+  (stk s' u = stk s u \/ stk s' u = notify_stack (stk s u)).
+Proof.
+  intros H Hu. destruct (step_other _ _ _ _ H) as [Hc [Hs|[Hs _]]].
+  - rewrite (Hc u Hu), (Hs u Hu). auto.
+  - rewrite (Hc u Hu), (Hs u Hu), filter_counted_notify. auto.
+Qed.
+
+(* ---- non-blocking requests *)
+Lemma nonblocking_never_blocks_lemma s t r rest :
+  (stk s t = ShReq false r :: rest \/ stk s t = ExReq false r :: rest) ->
+  exists s' o, stepo s (t, AGo) = Some (s', o) /\ o <> OWait /\
+               (stk s' t = rest \/ exists f, is_body f = true /\ stk s' t = f :: rest).
+Proof.
+  intros [E|E]; unfold stepo; rewrite E; unfold ex_check.
+  - destruct (free_for s t); [destruct (negb r && (0 <? cnt s t))|]; eexists; eexists; (split; [reflexivity|]);
+      (split; [discriminate|]); autorewrite with st; auto. right. exists ShBody. auto.
+  - destruct (free_for s t); [destruct (others_hold s t); [|destruct ((0 <? cnt s t) && negb r)]|];
+      eexists; eexists; (split; [reflexivity|]); (split; [discriminate|]); autorewrite with st; auto.
+    right. exists ExBody. auto.
+Qed.
+
+Lemma nonblocking_refuses_sh_lemma s t r rest u :
+  reachable s -> stk s t = ShReq false r :: rest -> u <> t -> In ExBody (stk s u) ->
+  stepo s (t, AGo) = Some (set_stk s t rest, ORaise WouldBlock).
+Proof.
+  intros R E Hu Hx. apply reachable_inv in R. unfold stepo. rewrite E.
+  assert (O : owner s = Some u) by (apply (i_own _ R), has_ex_In; exact Hx).
+  unfold free_for. rewrite O. apply Nat.eqb_neq in Hu. rewrite Hu. reflexivity.
+Qed.
+
+Lemma nonblocking_refuses_ex_lemma s t r rest u :
+  reachable s -> stk s t = ExReq false r :: rest -> u <> t -> cnt s u > 0 ->
+  exists s', stepo s (t, AGo) = Some (s', ORaise WouldBlock) /\ stk s' t = rest /\
+             (forall v, cnt s' v = cnt s v) /\ (forall v, v <> t -> stk s' v = stk s v).
+Proof.
+  intros R E Hu Hc. apply reachable_inv in R. unfold stepo. rewrite E. unfold ex_check.
+  assert (O : others_hold s t = true) by (apply others_hold_spec; exists u; auto).
+  rewrite O. destruct (free_for s t); eexists; (split; [reflexivity|]); autorewrite with st;
+    (split; [reflexivity|]); (split; [reflexivity|]); intros v Hv; autorewrite with st;
+    apply Nat.eqb_neq in Hv; rewrite Hv; reflexivity.
+Qed.
+
+(* a refusal is never spurious at this granularity: a conflicting holder exists *)
+Lemma refusal_justified_lemma s t s' :
+  reachable s -> stepo s (t, AGo) = Some (s', ORaise WouldBlock) ->
+  (exists b r rest, stk s t = ShReq b r :: rest /\ b = false /\ exists u, u <> t /\ In ExBody (stk s u)) \/
+  (exists b r rest, stk s t = ExReq b r :: rest /\ b = false /\ exists u, u <> t /\ cnt s u > 0).
+Proof.
+  intros R H. apply reachable_inv in R. unfold stepo, ex_check in H.
+  assert (FF : free_for s t = false -> exists u, u <> t /\ In ExBody (stk s u) /\ cnt s u > 0).
+  { unfold free_for. destruct (owner s) as [o|] eqn:O; [|discriminate]. intros N. apply Nat.eqb_neq in N.
+    exists o. split; [exact N|]. apply (i_own _ R) in O. split; [apply has_ex_In; exact O|].
+    rewrite (i_cnt _ R). apply has_ex_counted. exact O. }
+  break_step H; injection H as <-; subst.
+  - left. destruct (FF eq_refl) as [u [H1 [H2 _]]]. repeat eexists; eauto.
+  - right. match goal with H : others_hold _ _ = true |- _ => apply others_hold_spec in H; destruct H as [u [H1 H2]] end.
+    repeat eexists; eauto.
+  - right. destruct (FF eq_refl) as [u [H1 [_ H2]]]. repeat eexists; eauto.
+Qed.
+
+(* ---- recursion *)
+Lemma holder_free s t : Inv s -> cnt s t > 0 -> free_for s t = true.
+Proof.
+  intros I C. apply free_for_spec. destruct (owner s) as [o|] eqn:O; [|auto]. right.
+  destruct (Nat.eq_dec o t) as [->|N]; [reflexivity|]. exfalso.
+  apply (i_own _ I) in O. assert (cnt s t = 0) by (apply (i_ex _ I o t); auto). lia.
+Qed.
+
+Lemma recursive_sh_raises_lemma s t b rest :
+  reachable s -> stk s t = ShReq b false :: rest -> cnt s t > 0 ->
+  stepo s (t, AGo) = Some (set_stk s t rest, ORaise Recursive).
+Proof.
+  intros R E C. apply reachable_inv in R. unfold stepo. rewrite E, (holder_free _ _ R C).
+  apply Nat.ltb_lt in C. rewrite C. reflexivity.
+Qed.
+
+Lemma recursive_ex_raises_lemma s t b rest :
+  reachable s -> stk s t = ExReq b false :: rest -> cnt s t > 0 ->
+  (b = false \/ others_hold s t = false) ->
+  exists e, stepo s (t, AGo) = Some (release (set_stk s t rest) t, ORaise e) /\
+            (e = Recursive <-> others_hold s t = false).
+Proof.
+  intros R E C H. apply reachable_inv in R. unfold stepo, ex_check. rewrite E, (holder_free _ _ R C).
+  apply Nat.ltb_lt in C. rewrite C. destruct (others_hold s t).
+  - destruct H as [->|H]; [|discriminate]. exists WouldBlock. split; [reflexivity|]. split; discriminate.
+  - exists Recursive. cbn. split; [reflexivity|]. split; reflexivity.
+Qed.
+
+(* ---- any number of threads can hold the lock shared at the same time *)
+Lemma shared_together_lemma n :
+  exists s, reachable s /\ (forall t, t < n -> stk s t = [ShBody]) /\ (forall t, n <= t -> stk s t = []) /\ owner s = None.
+Proof.
+  induction n as [|n [s [R [H1 [H2 O]]]]].
+  - exists init. split; [constructor|]. split; [intros t Ht; lia|]. split; [intros; apply stk_init|reflexivity].
+  - pose proof (reachable_inv _ R) as I.
+    assert (C : cnt s n = 0) by (rewrite (i_cnt _ I), H2 by lia; reflexivity).
+    set (s1 := set_stk s n [ShReq true false]).
+    set (s2 := set_cnt (set_stk s1 n [ShBody]) n 1).
+    assert (S1 : step s (n, APush (ShReq true false)) = Some s1).
+    { unfold step, stepo. rewrite H2 by lia. reflexivity. }
+    assert (S2 : step s1 (n, AGo) = Some s2).
+    { unfold step, stepo, s2, s1. autorewrite with st. unfold free_for. autorewrite with st. rewrite O, C. reflexivity. }
+    exists s2. split; [econstructor; [econstructor; [exact R|exact S1]|exact S2]|].
+    unfold s2, s1. split; [|split].
+    + intros t Ht. autorewrite with st. destruct (Nat.eqb_spec t n); [reflexivity|]. apply H1. lia.
+    + intros t Ht. autorewrite with st. destruct (Nat.eqb_spec t n); [lia|]. apply H2. lia.
+    + autorewrite with st. exact O.
+Qed.
+
+(* ------------------------------------------------------------------ progress under the guard *)
+Fixpoint bottom (l : list frame) : option frame :=
+  match l with [] => None | f :: tl => match tl with [] => Some f | _ => bottom tl end end.
+Definition sh_counted (f : frame) : bool := match f with ShBody | ShExit => true | _ => false end.
+Definition bottom_sh (l : list frame) : bool := match bottom l with Some f => sh_counted f | None => false end.
+
+Lemma bottom_cons f l : l <> [] -> bottom (f :: l) = bottom l.
+Proof. destruct l; [congruence|reflexivity]. Qed.
+Lemma bottom_sh_cons f l : l <> [] -> bottom_sh (f :: l) = bottom_sh l.
+Proof. intros H. unfold bottom_sh. now rewrite bottom_cons. Qed.
+Lemma bottom_sh_single f : bottom_sh [f] = sh_counted f.
+Proof. reflexivity. Qed.
+Lemma bottom_sh_notify l : bottom_sh (notify_stack l) = bottom_sh l.
+Proof.
+  destruct l as [|f tl]; [reflexivity|]. cbn [notify_stack]. destruct tl as [|g tl].
+  - destruct f; reflexivity.
+  - rewrite !bottom_sh_cons by discriminate. reflexivity.
+Qed.
+Lemma bottom_sh_counted l : bottom_sh l = true -> ncounted l > 0.
+Proof.
+  induction l as [|f tl IH]; [discriminate|]. destruct tl as [|g tl].
+  - rewrite bottom_sh_single, ncounted_cons. destruct f; cbn; try discriminate; lia.
+  - rewrite bottom_sh_cons by discriminate. intros H. specialize (IH H). rewrite ncounted_cons. lia.
+Qed.
+Lemma bodies_bottom_sh l : forallb is_body l = true -> has_ex l = false -> l <> [] -> bottom_sh l = true.
+Proof.
+  induction l as [|f tl IH]; [congruence|]. cbn [forallb]. rewrite has_ex_cons, andb_true_iff, orb_false_iff.
+  intros [Hf Ht] [Ef Et] _. destruct tl as [|g tl].
+  - rewrite bottom_sh_single. destruct f; cbn in *; congruence.
+  - rewrite bottom_sh_cons by discriminate. apply IH; auto. discriminate.
+Qed.
+
+(* a holder that does not own the RLock holds shared at the bottom of its stack *)
+Lemma holder_bottom_sh s u : Inv s -> owner s <> Some u -> cnt s u > 0 -> bottom_sh (stk s u) = true.
+Proof.
+  intros I O C. rewrite (i_cnt _ I) in C. pose proof (i_wf _ I u) as W.
+  assert (X : has_ex (stk s u) = false).
+  { destruct (has_ex (stk s u)) eqn:E; [|reflexivity]. apply (i_own _ I) in E. congruence. }
+  destruct (stk s u) as [|f tl]; [cbn in C; lia|]. cbn [wf_stack] in W.
+  rewrite has_ex_cons, orb_false_iff in X. destruct X as [Xf Xt]. destruct tl as [|g tl].
+  - rewrite bottom_sh_single. rewrite ncounted_cons in C. destruct f; cbn in *; try lia; congruence.
+  - rewrite bottom_sh_cons by discriminate. apply bodies_bottom_sh; auto. discriminate.
+Qed.
+
+Record InvG (s : state) : Prop := {
+  g_req : forall t r rest, stk s t = ExReq true r :: rest -> cnt s t = 0 \/ has_ex rest = true;
+  g_wait : forall t r n rest, stk s t = ExWait r n :: rest -> cnt s t = 0;
+  g_conf : forall t r rest, stk s t = ExWait r false :: rest -> exists u, u <> t /\ bottom_sh (stk s u) = true
+}.
+
+Lemma invg_init : InvG init.
+Proof. constructor; intros *; rewrite stk_init; discriminate. Qed.
+
+Lemma acq_nonempty s : acq_empty s = false -> exists u, cnt s u > 0.
+Proof.
+  unfold acq_empty, cnt. induction (acq s) as [|c tl IH]; [discriminate|]. cbn [forallb].
+  rewrite andb_false_iff. intros [H|H].
+  - exists 0. cbn. apply Nat.eqb_neq in H. lia.
+  - destruct (IH H) as [u Hu]. exists (S u). exact Hu.
+Qed.
+
+Lemma notify_stack_inv l f tl : notify_stack l = f :: tl ->
+  (l = f :: tl /\ forall r n, f <> ExWait r n) \/ (exists r n, l = ExWait r n :: tl /\ f = ExWait r true).
+Proof.
+  destruct l as [|g l']; [discriminate|]. cbn. intros H. injection H as <- <-.
+  destruct g; try (left; split; [reflexivity|discriminate]). right. eauto.
+Qed.
+
+Lemma step_invg_req_wait s l s' :
+  Inv s -> InvG s -> g_label s l = true -> step s l = Some s' ->
+  (forall t r rest, stk s' t = ExReq true r :: rest -> cnt s' t = 0 \/ has_ex rest = true) /\
+  (forall t r n rest, stk s' t = ExWait r n :: rest -> cnt s' t = 0).
+Proof.
+  intros I G GL H. destruct l as [t a]. unfold step, stepo, ex_check in H.
+  break_step H.
+  all: cbn in H; injection H as <-.
+  all: pose proof (i_cnt _ I) as Ic; pose proof (i_own _ I) as Io; pose proof (i_ex _ I) as Ix; pose proof (i_wf _ I) as Iw.
+  all: pose proof (g_req _ G) as Gr; pose proof (g_wait _ G) as Gw.
+  all: pose proof (Ic t) as Ict; pose proof (Io t) as Iot; pose proof (Iw t) as Iwt; pose proof (Ix t) as Ixt;
+       pose proof (Gr t) as Grt; pose proof (Gw t) as Gwt.
+  all: try match goal with E : stk _ _ = _ :: _ |- _ => rewrite E in Ict, Iot, Iwt, Ixt, Grt, Gwt end.
+  all: rewrite ?ncounted_cons, ?has_ex_cons in Ict, Iot, Ixt; cbn [counted is_exbody orb wf_stack] in Ict, Iot, Iwt, Ixt.
+  all: repeat match goal with
+       | H : free_for _ _ = true |- _ => apply free_for_spec in H
+       | H : others_hold _ _ = false |- _ => rewrite others_hold_false in H
+       | H : others_hold _ _ = true |- _ => rewrite others_hold_spec in H
+       | H : _ && _ = true |- _ => apply andb_true_iff in H; destruct H
+       end.
+  all: split.
+  all: intros; autorewrite with st in *.
+  all: repeat match goal with
+  | |- context[Nat.eqb ?u ?t] => destruct (Nat.eqb_spec u t); subst
+  | H : context[Nat.eqb ?u ?t] |- _ => destruct (Nat.eqb_spec u t); subst
+  end.
+  all: try match goal with H : notify_stack _ = _ :: _ |- _ =>
+         apply notify_stack_inv in H; destruct H as [[H ?]|[? [? [H ?]]]] end.
+  all: try solve [eauto | congruence].
+  all: try (cbn [forallb is_body andb] in Iwt; discriminate Iwt).
+  all: try match goal with H : _ :: _ = _ :: _ |- _ => injection H as ? ?; subst end.
+  all: try (cbn in H; discriminate H).
+  all: try (cbn [g_label] in GL; apply orb_true_iff in GL; destruct GL as [GL|GL]; [apply Nat.eqb_eq in GL|]; auto).
+  all: try (destruct (Grt _ _ eq_refl) as [?|Hx]; [assumption|]; destruct E3 as [u [Hu Hc]];
+            rewrite (Ixt u Hx Hu) in Hc; lia).
+Qed.
+
+Lemma bottom_sh_step s t a s' u :
+  step s (t, a) = Some s' -> bottom_sh (stk s u) = true ->
+  bottom_sh (stk s' u) = true \/ (u = t /\ stk s t = [ShExit]).
+Proof.
+  intros H B. destruct (Nat.eq_dec u t) as [->|N].
+  - unfold step, stepo, ex_check in H. break_step H.
+    all: cbn in H; injection H as <-.
+    all: autorewrite with st.
+    all: try match goal with E : stk _ _ = _ :: _ |- _ => rewrite E in B end.
+    all: rewrite ?bottom_sh_notify.
+    all: try match goal with |- context[bottom_sh (?f :: stk ?s ?t)] =>
+           left; rewrite bottom_sh_cons; [exact B | intro X; rewrite X in B; discriminate B] end.
+    all: match goal with B : bottom_sh (_ :: ?l) = true |- _ => destruct l as [|g l'] end.
+    all: rewrite ?bottom_sh_cons in * by discriminate.
+    all: try (cbn in B; discriminate B).
+    all: auto.
+  - destruct (step_other _ _ _ _ H) as [_ [Hs|[Hs _]]]; rewrite (Hs u N), ?bottom_sh_notify; auto.
+Qed.
+
+Lemma new_waiter s t a s' r rest :
+  Inv s -> step s (t, a) = Some s' -> stk s' t = ExWait r false :: rest ->
+  (owner s = None \/ owner s = Some t) /\ others_hold s t = true /\ (forall u, u <> t -> stk s' u = stk s u).
+Proof.
+  intros I H W. pose proof (i_wf _ I t) as Iwt. unfold step, stepo, ex_check in H. break_step H.
+  all: cbn in H; injection H as <-.
+  all: autorewrite with st in W.
+  all: try discriminate W.
+  all: try match goal with E : stk _ _ = _ :: _ |- _ => rewrite E in Iwt; cbn [wf_stack] in Iwt end.
+  all: try (rewrite W in Iwt; cbn in Iwt; discriminate Iwt).
+  all: try (injection W as ? ?; subst; cbn in *; discriminate).
+  all: try (destruct (stk s t) as [|[] ?]; cbn in W; discriminate W).
+  all: repeat match goal with H : free_for _ _ = true |- _ => apply free_for_spec in H end.
+  all: try (split; [auto|split; [auto|intros u Hu; autorewrite with st; apply Nat.eqb_neq in Hu; rewrite ?Hu; reflexivity]]).
+  apply notify_stack_inv in W. destruct W as [[W _]|[? [? [_ W]]]]; [|discriminate W].
+  rewrite W in Iwt. cbn in Iwt. discriminate Iwt.
+Qed.
+
+Lemma other_waiter s t a s' t0 r rest :
+  step s (t, a) = Some s' -> t0 <> t -> stk s' t0 = ExWait r false :: rest ->
+  stk s t0 = ExWait r false :: rest /\ (forall u, u <> t -> stk s' u = stk s u).
+Proof.
+  intros H N W. destruct (step_other _ _ _ _ H) as [_ [Hs|[Hs _]]].
+  - rewrite (Hs t0 N) in W. auto.
+  - rewrite (Hs t0 N) in W. apply notify_stack_inv in W. destruct W as [[_ W]|[? [? [_ W]]]]; [|discriminate W].
+    exfalso. eapply W. reflexivity.
+Qed.
+
+Lemma last_sh_exit s t a s' :
+  step s (t, a) = Some s' -> stk s t = [ShExit] -> cnt s t = 1 ->
+  (forall u, u <> t -> stk s' u = notify_stack (stk s u)) \/
+  (free_for s t = true /\ exists u', u' <> t /\ cnt s u' > 0).
+Proof.
+  intros H E C. unfold step, stepo in H. destruct a; [rewrite E in H; cbn in H; rewrite andb_false_r in H; discriminate|].
+  rewrite E in H. destruct (free_for s t) eqn:F; [|discriminate]. rewrite C in H. cbn [Nat.sub Nat.eqb andb] in H.
+  destruct (acq_empty (set_cnt (set_stk s t []) t 0)) eqn:A; cbn in H; injection H as <-.
+  - left. intros u Hu. autorewrite with st. apply Nat.eqb_neq in Hu. rewrite Hu. reflexivity.
+  - right. split; [reflexivity|]. apply acq_nonempty in A. destruct A as [u Hu]. rewrite cnt_set_cnt, cnt_set_stk in Hu.
+    destruct (Nat.eqb_spec u t); [lia|]. exists u. auto.
+Qed.
+
+Lemma step_invg s l s' : Inv s -> InvG s -> g_label s l = true -> step s l = Some s' -> InvG s'.
+Proof.
+  intros I G GL H. destruct (step_invg_req_wait _ _ _ I G GL H) as [Gr Gw]. constructor; [exact Gr|exact Gw|].
+  destruct l as [t a]. intros t0 r rest W. destruct (Nat.eq_dec t0 t) as [->|N].
+  - destruct (new_waiter _ _ _ _ _ _ I H W) as [O [OH Hs]]. apply others_hold_spec in OH. destruct OH as [u [Hu Hc]].
+    exists u. split; [exact Hu|]. rewrite (Hs u Hu). apply holder_bottom_sh; auto.
+    destruct O as [O|O]; rewrite O; congruence.
+  - destruct (other_waiter _ _ _ _ _ _ _ H N W) as [W0 Hs].
+    destruct (g_conf _ G _ _ _ W0) as [u [Hu Hb]].
+    destruct (bottom_sh_step _ _ _ _ _ H Hb) as [Hb'|[-> E]].
+    + exists u. auto.
+    + assert (C : cnt s t = 1) by (rewrite (i_cnt _ I), E; reflexivity).
+      destruct (last_sh_exit _ _ _ _ H E C) as [Hn|[F [u' [Hu' Hc']]]].
+      * rewrite (Hn t0 N), W0 in W. discriminate W.
+      * exists u'. assert (cnt s t0 = 0) by (eapply (g_wait _ G); eauto).
+        split; [intros ->; lia|]. rewrite (Hs u' Hu'). apply holder_bottom_sh; auto.
+        apply free_for_spec in F. destruct F as [F|F]; rewrite F; congruence.
+Qed.
+
+Lemma reachable_g_invs s : reachable_g s -> Inv s /\ InvG s.
+Proof.
+  induction 1 as [|s l s' R [I G] GL H].
+  - split; [apply inv_init|apply invg_init].
+  - split; [eapply step_inv; eauto|eapply step_invg; eauto].
+Qed.
+
+Lemma no_lost_wakeup_lemma s t r n rest :
+  reachable_g s -> stk s t = ExWait r n :: rest -> others_hold s t = false -> n = true.
+Proof.
+  intros R E O. destruct (reachable_g_invs _ R) as [I G]. destruct n; [reflexivity|].
+  destruct (g_conf _ G _ _ _ E) as [u [Hu Hb]]. apply bottom_sh_counted in Hb. rewrite <- (i_cnt _ I) in Hb.
+  rewrite others_hold_false in O. rewrite (O u Hu) in Hb. lia.
+Qed.
+
+Lemma notified_waiter_enabled_lemma s t r rest :
+  stk s t = ExWait r true :: rest -> owner s = None -> exists s', step s (t, AGo) = Some s'.
+Proof. intros E O. unfold step, stepo. rewrite E, O. eexists. reflexivity. Qed.
+
+(* what a thread that cannot move looks like *)
+Lemma enabled_cases s t :
+  enabled s t = false -> stk s t <> [] ->
+  (free_for s t = false /\ exists f rest, stk s t = f :: rest /\ (f = ShExit \/ (exists r, f = ShReq true r) \/ exists r, f = ExReq true r)) \/
+  (exists r rest, stk s t = ExWait r true :: rest /\ owner s <> None) \/
+  (exists r rest, stk s t = ExWait r false :: rest).
+Proof.
+  unfold enabled, step, stepo, ex_check. intros H N. destruct (stk s t) as [|f rest] eqn:E; [congruence|].
+  cbv zeta in H.
+  destruct f as [b r| | |b r|r n| ];
+    repeat match goal with H : context[if ?x then _ else _] |- _ => destruct x eqn:? end;
+    repeat match goal with H : context[match ?x with _ => _ end] |- _ => destruct x eqn:? end;
+    try discriminate; try (match goal with H : option_map _ _ = None |- _ => cbn in H; discriminate H end).
+  all: try (left; split; [reflexivity|]; eauto 8; fail).
+  all: try (right; left; repeat eexists; congruence).
+  all: eauto 8.
+Qed.
+
+Lemma stuck_spec s : stuck s = true -> forall t, enabled s t = false.
+Proof.
+  unfold stuck. rewrite forallb_forall. intros H t. destruct (Nat.lt_ge_cases t (nthreads s)) as [L|L].
+  - apply negb_true_iff. apply H. unfold threads. apply in_seq. lia.
+  - unfold enabled, step, stepo. unfold stk. rewrite nth_overflow by exact L. reflexivity.
+Qed.
+
+Lemma not_stuck s : stuck s = false -> exists t s', step s (t, AGo) = Some s'.
+Proof.
+  unfold stuck. intros H. assert (X : exists t, enabled s t = true).
+  { induction (threads s) as [|t tl IH]; [discriminate|]. cbn in H. apply andb_false_iff in H. destruct H as [H|H].
+    - exists t. now apply negb_false_iff. 
+    - auto. }
+  destruct X as [t X]. unfold enabled in X. destruct (step s (t, AGo)) as [s'|] eqn:E; [|discriminate]. eauto.
+Qed.
+
+Lemma deadlock_free_lemma s :
+  reachable_g s -> (exists t, stk s t <> []) -> exists t s', step s (t, AGo) = Some s'.
+Proof.
+  intros R [t Nt]. destruct (reachable_g_invs _ R) as [I G].
+  destruct (stuck s) eqn:S; [exfalso|apply not_stuck; exact S].
+  pose proof (stuck_spec _ S) as St.
+  (* the RLock is free: its owner would be able to move *)
+  assert (O : owner s = None).
+  { destruct (owner s) as [o|] eqn:O; [exfalso|reflexivity].
+    pose proof (proj1 (i_own _ I o) O) as X. pose proof (has_ex_counted _ X) as C. rewrite <- (i_cnt _ I) in C.
+    assert (No : stk s o <> []) by (intros Z; rewrite Z in X; discriminate).
+    destruct (enabled_cases _ _ (St o) No) as [[F _]|[[r [rest [E _]]]|[r [rest E]]]].
+    - unfold free_for in F. rewrite O, Nat.eqb_refl in F. discriminate.
+    - rewrite (g_wait _ G _ _ _ _ E) in C. lia.
+    - rewrite (g_wait _ G _ _ _ _ E) in C. lia. }
+  assert (W : forall u, stk s u <> [] -> exists r rest, stk s u = ExWait r false :: rest).
+  { intros u Nu. destruct (enabled_cases _ _ (St u) Nu) as [[F _]|[[r [rest [_ E]]]|E]].
+    - unfold free_for in F. rewrite O in F. discriminate.
+    - congruence.
+    - exact E. }
+  destruct (W t Nt) as [r [rest E]]. destruct (g_conf _ G _ _ _ E) as [u [_ Hb]].
+  assert (Nu : stk s u <> []) by (intros Z; rewrite Z in Hb; discriminate).
+  destruct (W u Nu) as [r' [rest' E']]. apply bottom_sh_counted in Hb. rewrite <- (i_cnt _ I) in Hb.
+  rewrite (g_wait _ G _ _ _ _ E') in Hb. lia.
+Qed.
+
+(* ---- a waiter that itself holds the lock is never notified: the defect in general form *)
+Lemma waiting_holder_stays s t r rest l s' :
+  stk s t = ExWait r false :: rest -> cnt s t > 0 -> step s l = Some s' ->
+  stk s' t = ExWait r false :: rest /\ cnt s' t > 0.
+Proof.
+  intros E C H. destruct l as [u a]. destruct (Nat.eq_dec u t) as [->|N].
+  - exfalso. unfold step, stepo in H. rewrite E in H. destruct a as [f|]; cbn in H; rewrite ?andb_false_r in H; discriminate H.
+  - destruct (step_other _ _ _ _ H) as [Hc [Hs|[_ Hz]]].
+    + rewrite (Hc t), (Hs t) by congruence. auto.
+    + specialize (Hz t). rewrite (Hc t) in Hz by congruence. lia.
+Qed.
+
+Lemma waiting_holder_forever s t r rest ls s' :
+  stk s t = ExWait r false :: rest -> cnt s t > 0 -> run s ls = Some s' ->
+  stk s' t = ExWait r false :: rest /\ cnt s' t > 0.
+Proof.
+  revert s. induction ls as [|l tl IH]; intros s E C H; cbn in H.
+  - injection H as <-. auto.
+  - destruct (step s l) as [s1|] eqn:S; [|discriminate].
+    destruct (waiting_holder_stays _ _ _ _ _ _ E C S) as [E1 C1]. eapply IH; eauto.
+Qed.
+
+Lemma run_reachable s ls s' : reachable s -> run s ls = Some s' -> reachable s'.
+Proof.
+  revert s. induction ls as [|l tl IH]; intros s R H; cbn in H.
+  - injection H as <-. exact R.
+  - destruct (step s l) as [s1|] eqn:S; [|discriminate]. eapply IH; [|exact H]. econstructor; eauto.
+Qed.
+
+Lemma g_run_reachable s ls s' : reachable_g s -> g_run s ls = true -> run s ls = Some s' -> reachable_g s'.
+Proof.
+  revert s. induction ls as [|l tl IH]; intros s R G H; cbn in H, G.
+  - injection H as <-. exact R.
+  - apply andb_true_iff in G. destruct G as [G1 G2]. destruct (step s l) as [s1|] eqn:S; [|discriminate].
+    eapply IH; [|exact G2|exact H]. econstructor; eauto.
+Qed.
